@@ -1,6 +1,6 @@
 (* Correspondence check for C15. Values are float.hex() tokens.  Definitions only. *)
 From Coq Require Import String Ascii List Bool Arith ZArith.
-From Hpotk Require Import Base.Result Base.Str Base.Emit Sim.Model.
+From Hpotk Require Import Base.Result Base.Str Base.Emit Sim.Model Sim.Csv.
 Import ListNotations.
 Open Scope string_scope.
 Open Scope list_scope.
@@ -49,7 +49,9 @@ Inductive ccase :=
 | CHistory (keys : list string) (h : list hstep)
 | CMetaToStr (m : meta) (r : res string)
 | CMetaFromStr (s : string) (r : res (list (string * string)))      (* parsed dict as sorted association list *)
-| CFrame (s : string) (line : string).                              (* the header line written for metadata string s *)
+| CFrame (s : string) (line : string)                               (* the header line written for metadata string s *)
+| CCsvWrite (fields : list string) (line : string)                  (* csv.writer output for one row *)
+| CCsvRead (line : string) (fields : list string).                  (* csv.reader result for one physical line *)
 
 Fixpoint mins (x : string * string) (l : list (string * string)) : list (string * string) :=
   match l with [] => [x] | y :: r => if sltb (fst y) (fst x) then y :: mins x r else x :: l end.
@@ -62,4 +64,6 @@ Definition check_ccase (c : ccase) : bool :=
   | CMetaToStr m r => res_eqb seqb (metadata_to_str m) r
   | CMetaFromStr s r => res_eqb (list_eqb kv_eqb) (rmap msort (metadata_from_str s)) r
   | CFrame s line => seqb (frame s) line && seqb (unframe line) s
+  | CCsvWrite fields line => seqb (write_row fields) line
+  | CCsvRead line fields => list_eqb seqb (read_row line) fields
   end.
